@@ -148,6 +148,21 @@ ADDED4 = {
 for _k, _v in ADDED4.items():
     _t = CHECKS[_k]
     CHECKS[_k] = (_t[0] + " " + _v, _t[1], _t[2])
+# round 8 and the last side remarks (DESIGN.md 12.4)
+ADDED5 = {
+ "C04": "Round 8: when conditions whose `or` line holds an alternative that cannot be evaluated.",
+ "C05": "Round 8: a CloudFormation template whose failing resources lie far apart (content of the code excerpts, not only their order); diagnostics that list rule names (stderr compared).",
+ "C09": "Round 8: an empty rules file among several.",
+ "C10": "Round 8: floats without a fraction, below and beyond the 64-bit integers.",
+ "C12": "Round 8: the whole plain report of every test case (section headers too) against the case alone.",
+ "C14": "Round 8: line break / comment between `keys` and its operator.",
+ "C16": "Round 8: maps in several key orders through wildcards, key filters and key captures, the validate command as the other side.",
+ "C17": "Round 8: a key defined twice where one value is null, an empty container, false, 0 or the empty string.",
+ "C19": "Round 8: both neighbours of every number as mutations; an integer beyond 2^53.",
+}
+for _k, _v in ADDED5.items():
+    _t = CHECKS[_k]
+    CHECKS[_k] = (_t[0] + " " + _v, _t[1], _t[2])
 PENDING_REASON = "check under construction in this round (design in DESIGN.md section 5); not claimed until its quick tier runs clean on the unchanged tree"
 ALL = ["C%02d" % i for i in range(1, 20)]
 m = {
